@@ -407,6 +407,14 @@ def newDigest (A : Alg) (hashSize : Nat) (key : Bytes) : Option (Digest A) :=
                           key := copyAt (zeros A.bs) 0 key, keyLen := key.length }
     some d.reset
 
+/-- blake2s `New128(key)`: a 128-bit digest is only offered as a MAC — an empty key is an error -/
+def new128 (A : Alg) (key : Bytes) : Option (Digest A) :=
+  if key.length = 0 then none else newDigest A 16 key
+
+/-- `Size()` and `BlockSize()` of hash.Hash -/
+def Digest.sizeOf (d : Digest A) : Nat := d.size
+def Digest.blockSizeOf (_d : Digest A) : Nat := A.bs
+
 /-- how many bytes of `p` (with `p.length > bs`) Write / checkSum hash directly: all full blocks except
     that a trailing full block is kept back (`length &^ (BlockSize-1)`, minus one block if equal) -/
 def directLen (bs len : Nat) : Nat :=
